@@ -118,12 +118,20 @@ func SNPFamilyValidateFunc(familyID string, opts *Options) func(*spb.Attestation
 			serializedEndorsement = blob
 
 		}
-		opts.SNP.Measurement = measurement
+		// The validator may be called repeatedly and concurrently, so the report's measurement goes in
+		// a per-call copy of the options rather than in the caller's shared Options.
+		callSNP := SNPOptions{}
+		if opts.SNP != nil {
+			callSNP = *opts.SNP
+		}
+		callSNP.Measurement = measurement
+		callOpts := *opts
+		callOpts.SNP = &callSNP
 		// Prefer the endorsement provided by the caller.
 		if opts.Endorsement != nil {
-			return EndorsementProto(opts.Endorsement, opts)
+			return EndorsementProto(opts.Endorsement, &callOpts)
 		}
-		return Endorsement(serializedEndorsement, opts)
+		return Endorsement(serializedEndorsement, &callOpts)
 	}
 }
 
